@@ -501,6 +501,18 @@ def _module_state(ctx, repo, rule='R09b', modfilter=None):
                     continue
                 # key completeness: names the value is built from must flow into the key
                 flows = _flows_into(f, key)
+                # an object's identity is not its value: the object can change after the entry was made, and
+                # CPython hands the same id() to a later object once the first one is gone
+                kdefs = [key] + [s2.value for s2 in iter_own(f) if isinstance(s2, ast.Assign) and any(
+                    isinstance(_root(t), ast.Name) and _root(t).id in flows for t in s2.targets)]
+                idcalls = [c for kd in kdefs for c in ast.walk(kd) if isinstance(c, ast.Call)
+                           and isinstance(c.func, ast.Name) and c.func.id == 'id' and len(c.args) == 1]
+                if idcalls:
+                    ctx.refuted(rule, mod, n, 'the cache key %s is built from %s: the identity of an object says nothing '
+                                'about its contents (the object may be changed after the entry was made) and is reused for '
+                                'a later object once this one is collected: a later call gets what was built for another '
+                                'argument' % (keytxt, unparse(idcalls[0])), construct=cons)
+                    continue
                 val_names = set()
                 vexpr = n.value
                 if isinstance(vexpr, ast.Name):
@@ -509,6 +521,11 @@ def _module_state(ctx, repo, rule='R09b', modfilter=None):
                     defs = [s2.value for s2 in iter_own(f)
                             if isinstance(s2, ast.Assign) and any(
                                 isinstance(t, ast.Name) and t.id == vname for t in s2.targets)]
+                    # what is put into the value in place (v.add(..), v.update(..)) is part of it as well
+                    defs += [a_ for e_ in iter_own(f) if isinstance(e_, ast.Expr) and isinstance(e_.value, ast.Call)
+                             for c in [e_.value] if isinstance(c.func, ast.Attribute)
+                             and isinstance(c.func.value, ast.Name) and c.func.value.id == vname
+                             for a_ in list(c.args) + [k.value for k in c.keywords]]
                     if defs:
                         vexpr = ast.Tuple(elts=defs, ctx=ast.Load())
                 for nm in ast.walk(vexpr):
